@@ -50,6 +50,13 @@ func LoadHIDIConfig(path string) (HIDIConfig, error) {
 		return HIDIConfig{}, err
 	}
 
+	if rawConfig.HIDI.PoolRate <= 0 {
+		return HIDIConfig{}, fmt.Errorf("\"%s\": pool_rate has to be greater than 0 (got %d)", path, rawConfig.HIDI.PoolRate)
+	}
+	if rawConfig.HIDI.DiscoveryRate <= 0 {
+		return HIDIConfig{}, fmt.Errorf("\"%s\": discovery_rate has to be greater than 0 (got %d)", path, rawConfig.HIDI.DiscoveryRate)
+	}
+
 	var config HIDIConfig
 
 	config.HIDI.EVThrottling = time.Second / time.Duration(rawConfig.HIDI.PoolRate)
